@@ -41,6 +41,7 @@ pub fn run_threads(w: &mut dyn WorldApi, g: &mut Gen, ev: &mut Ev, iters: u64, b
         let base = if g.rng.chance(1, 2) { ViewProg::default() } else { ViewProg { root: Some(g.hkey(&m)), nav: vec![] } };
         let mut plan = ThreadPlan { base, depth: 1 + g.rng.below(3) as u8, seed: g.rng.next(), yields: g.rng.chance(2, 3), threaded: true, steps_per_worker: 2 + g.rng.below(10) };
         let before = w.shape(Slot::Map(0));
+        beat("check/threads");
         let ra = guarded(|| w.threads(Slot::Map(0), &plan));
         // the same plan once more on another copy: a second interleaving of the same scripts
         let ra2 = guarded(|| w.threads(Slot::Map(2), &plan));
@@ -140,6 +141,7 @@ pub fn run_churn(w: &mut dyn WorldApi, g: &mut Gen, ev: &mut Ev, cycles: u64, wi
             break;
         }
         // one cycle: insert a batch from the working set, then take it out again some way
+        beat("apply/churn cycle");
         let k = 2 + g.rng.below(20);
         let mut batch: Vec<EP> = (0..k).map(|_| *g.rng.pick(&ws)).collect();
         for p in &batch {
